@@ -104,7 +104,21 @@ func NewGsfaWriter(
 func (a *GsfaWriter) fullBufferWriter() {
 	numReadFromChan := uint64(0)
 	howManyBuffersToFlushConcurrently := 256
-	tmpBuf := make(linkedlog.KeyToOffsetAndSizeAndBlocktimeSlice, howManyBuffersToFlushConcurrently)
+	tmpBuf := make(linkedlog.KeyToOffsetAndSizeAndBlocktimeSlice, 0, howManyBuffersToFlushConcurrently)
+
+	flushTmpBuf := func() {
+		for _, buf := range tmpBuf {
+			if len(buf.Values) == 0 {
+				continue
+			}
+			// Write the buffer to the linked log.
+			klog.V(5).Infof("Flushing %d transactions for key %s", len(buf.Values), buf.Key)
+			if err := a.flushKVs(buf); err != nil {
+				klog.Errorf("Error while flushing transactions for key %s: %v", buf.Key, err)
+			}
+		}
+		tmpBuf = make(linkedlog.KeyToOffsetAndSizeAndBlocktimeSlice, 0, howManyBuffersToFlushConcurrently)
+	}
 
 	for {
 		// fmt.Println("numReadFromChan", numReadFromChan, "len(a.fullBufferWriterChan)", len(a.fullBufferWriterChan), "a.exiting.Load()", a.exiting.Load())
@@ -112,6 +126,8 @@ func (a *GsfaWriter) fullBufferWriter() {
 			klog.Infof("remaining %d buffers to flush", len(a.fullBufferWriterChan))
 		}
 		if a.exiting.Load() && len(a.fullBufferWriterChan) == 0 {
+			// write the batches that are still parked before reporting completion
+			flushTmpBuf()
 			a.fullBufferWriterDone <- struct{}{}
 			return // exit
 		}
@@ -121,17 +137,7 @@ func (a *GsfaWriter) fullBufferWriter() {
 				numReadFromChan++
 				has := tmpBuf.Has(buffer.Key)
 				if len(tmpBuf) == howManyBuffersToFlushConcurrently || has {
-					for _, buf := range tmpBuf {
-						if len(buf.Values) == 0 {
-							continue
-						}
-						// Write the buffer to the linked log.
-						klog.V(5).Infof("Flushing %d transactions for key %s", len(buf.Values), buf.Key)
-						if err := a.flushKVs(buf); err != nil {
-							klog.Errorf("Error while flushing transactions for key %s: %v", buf.Key, err)
-						}
-					}
-					tmpBuf = make(linkedlog.KeyToOffsetAndSizeAndBlocktimeSlice, howManyBuffersToFlushConcurrently)
+					flushTmpBuf()
 				}
 				tmpBuf = append(tmpBuf, buffer)
 			}
@@ -230,14 +236,16 @@ const itemsPerBatch = 1000
 func (a *GsfaWriter) Close() error {
 	a.mu.Lock()
 	defer a.mu.Unlock()
+	// Let the background writer finish first: the full batches it still holds are older than
+	// the partial batches left in the accumulator and must be linked before them.
+	a.exiting.Store(true)
+	klog.Info("Closing full buffer writer...")
+	<-a.fullBufferWriterDone
+	a.cancel()
 	if err := a.flushAccum(a.accum); err != nil {
 		return err
 	}
-	a.exiting.Store(true)
 	klog.Info("Closing linked log...")
-	<-a.fullBufferWriterDone
-	klog.Info("Closing full buffer writer...")
-	a.cancel()
 	{
 		{
 			keys := solana.PublicKeySlice(a.offsets.Keys())
